@@ -1,4 +1,5 @@
 (* C04 -- the wire format of every message matches the TS 24.501 message tables. *)
+From NV Require C19.Globals.
 From NV Require Import Lib.Base Codec.Lang Codec.Def Codec.Sem Codec.Total Codec.Dispatch Codec.GenDefs Codec.WF
   Codec.SpecTable Codec.SpecProofs Codec.SpecDecode Codec.Stmt Codec.StmtProofs Codec.Final Spec.TS24501Tables Gen.GenMsgs Gen.GenTypes.
 From Coq Require Import String.
@@ -61,6 +62,14 @@ Theorem C04_format_programs : forall g m, In g all_msgs -> wf_msgb (def_of nas_t
   exec_enc nas_types g m = Ok (spec_format (abstract (def_of nas_types g)) m).
 Proof. exact program_format. Qed.
 
+(* the functions this property is about are functions of their arguments: the files it is anchored in declare
+   no package-level variable other than the pinned read-only tables (or a never-touched one of plain type) and
+   none of their functions writes, slices, takes the address of, passes on or calls a method of a
+   package-level variable (logger entries excepted) -- evaluated on the current source (C19/Globals.v) *)
+Theorem C04_anchor_files_keep_no_state :
+  Globals.hidden_state_free Globals.anchors_C04 = true.
+Proof. vm_compute. reflexivity. Qed.
+
 Print Assumptions C04_tables_eq.
 Print Assumptions C04_static_all90.
 Print Assumptions C04_all_defs_ok.
@@ -68,3 +77,4 @@ Print Assumptions C04_format.
 Print Assumptions C04_decode_equiv.
 Print Assumptions C04_decode_equiv_programs.
 Print Assumptions C04_format_programs.
+Print Assumptions C04_anchor_files_keep_no_state.
